@@ -148,6 +148,23 @@ def nx_has_path(graph, a, b):
     return nx.has_path(graph, a, b)
 
 
+# ---- C10: the resolution rule of a chain's accessors as ONE abstract relation (what `in` answers, what `get` returns);
+#      symbolically two uninterpreted functions of (name, tasks) - a contract stated with them holds for whatever rule
+#      the accessors implement, and ties a caller to that rule exactly
+def c10_resolves(item, names):
+    from contracts.names import resolvable
+    return resolvable(item, list(names))
+
+
+def c10_target(item, names):
+    from contracts.names import name_matches, less_nested
+    M = [t for t in names if name_matches(item, t, True)]
+    for c in M:
+        if all(less_nested(c, t) for t in M):
+            return c
+    return None
+
+
 def set_with(s, x):
     return set(s) | {x}
 
